@@ -1,6 +1,7 @@
 /* libc leaf functions used by uriparser, as plain C so that they are executed symbolically like everything else */
 #include <stddef.h>
 #include <wchar.h>
+size_t strlen(const char *s);
 #ifndef MODE_ARITH   /* the C17 arithmetic harness stubs strlen/wcslen with an arbitrary size_t */
 size_t strlen(const char *s){ size_t n = 0; while (s[n]) n++; return n; }
 size_t wcslen(const wchar_t *s){ size_t n = 0; while (s[n]) n++; return n; }
@@ -17,3 +18,19 @@ int memcmp(const void *a, const void *b, size_t n){ const unsigned char *x = a, 
   return 0; }
 int strcmp(const char *a, const char *b){ size_t i = 0; for (;; i++){ unsigned char x = (unsigned char)a[i], y = (unsigned char)b[i];
     if (x != y) return x < y ? -1 : 1; if (!x) return 0; } }
+/* further leaves a modified library might reach for (kept simple; executed symbolically like the rest) */
+char *strncpy(char *d, const char *s, size_t n){ size_t i = 0; for (; i < n && s[i]; i++) d[i] = s[i]; for (; i < n; i++) d[i] = 0; return d; }
+char *strcpy(char *d, const char *s){ size_t i = 0; for (;; i++){ d[i] = s[i]; if (!s[i]) break; } return d; }
+char *strcat(char *d, const char *s){ strcpy(d + strlen(d), s); return d; }
+char *strchr(const char *s, int c){ for (;; s++){ if (*s == (char)c) return (char *)s; if (!*s) return 0; } }
+char *strrchr(const char *s, int c){ const char *r = 0; for (;; s++){ if (*s == (char)c) r = s; if (!*s) return (char *)r; } }
+void *memchr(const void *s, int c, size_t n){ const unsigned char *p = s; size_t i; for (i = 0; i < n; i++) if (p[i] == (unsigned char)c) return (void *)(p + i); return 0; }
+size_t strnlen(const char *s, size_t n){ size_t i = 0; while (i < n && s[i]) i++; return i; }
+wchar_t *wcsncpy(wchar_t *d, const wchar_t *s, size_t n){ size_t i = 0; for (; i < n && s[i]; i++) d[i] = s[i]; for (; i < n; i++) d[i] = 0; return d; }
+wchar_t *wcscpy(wchar_t *d, const wchar_t *s){ size_t i = 0; for (;; i++){ d[i] = s[i]; if (!s[i]) break; } return d; }
+wchar_t *wcschr(const wchar_t *s, wchar_t c){ for (;; s++){ if (*s == c) return (wchar_t *)s; if (!*s) return 0; } }
+int wcscmp(const wchar_t *a, const wchar_t *b){ size_t i = 0; for (;; i++){ if (a[i] != b[i]) return a[i] < b[i] ? -1 : 1; if (!a[i]) return 0; } }
+wchar_t *wmemcpy(wchar_t *d, const wchar_t *s, size_t n){ size_t i; for (i = 0; i < n; i++) d[i] = s[i]; return d; }
+wchar_t *wmemset(wchar_t *d, wchar_t c, size_t n){ size_t i; for (i = 0; i < n; i++) d[i] = c; return d; }
+int wmemcmp(const wchar_t *a, const wchar_t *b, size_t n){ size_t i; for (i = 0; i < n; i++) if (a[i] != b[i]) return a[i] < b[i] ? -1 : 1; return 0; }
+int abs(int x){ return x < 0 ? -x : x; }
